@@ -126,6 +126,16 @@ def oracle(case, obs):
     setup_failed = [o for o in obs if o.startswith("setup-failed")]
     if setup_failed:
         return [{"oracle": "setup", "detail": setup_failed[0]}]
+    # websockets: what the server pushed to a socket held by a key the account does not (any longer) trust
+    for o in obs:
+        t = o.split()
+        if t and t[0] == "wsprobe":
+            w = dict(x.split("=", 1) for x in t[1:] if "=" in x)
+            if w.get("pushed", "na").isdigit() and int(w["pushed"]) > 0:
+                fails.append({"oracle": "ws_notifications_to_untrusted", "who": w.get("who"),
+                              "detail": "the server pushed %s bytes of change notifications to the websocket of %s (upgrade answered %s)" % (
+                                  w["pushed"], {"stranger": "a key no account knows, subscribed before the account existed on the server",
+                                                "revoked": "device d1 after its revocation (socket opened while it was trusted)"}.get(w.get("who"), w.get("who")), w.get("status"))})
     for kv in parse(obs):
         ok_creds = accepted_by_design(case, kv)
         st = int(kv.get("status", "0"))
